@@ -568,7 +568,8 @@ KREUSE = [-1, -5, -100000, 5, 0x7fffffff]        # + MIN of the type
 def tier_b_kreuse(thorough):
     """A constant held in ONE register and consumed by two (three) different instructions, as left or right operand:
     t1 = a <op1> K ; t2 = b <op2> K ; return t1 ^ t2   (register propagation hands the same constant to every use).
-    key = B:kreuse.<type>:<first use> ; pid adds the second (third) use, the constant and the combiner."""
+    key = B:kreuse.<type> (which use is mis-written cannot be told from the input side); the pid names the uses, the
+    constant and the combiner."""
     P = []
     for ty in ("int", "long"):
         wide = ty == "long"
@@ -610,7 +611,7 @@ def tier_b_kreuse(thorough):
                             s.ins("%s-%s" % (comb, ty), RR, T1, T2)
                             s.ins(rt, RR)
                         P.append(Prog("B:kreuse.%s:%s,%s:%d:%s" % (ty, name(u1), name(u2), c, comb),
-                                      "B:kreuse.%s:%s" % (ty, name(u1)), T + T, T, nloc, body))
+                                      "B:kreuse.%s" % ty, T + T, T, nloc, body))
         # three uses: t1 = a <op1> K ; t2 = b * K ; r = (t1 ^ t2) <op3> K
         for u1 in uses:
             for u3 in (("add", "R"), ("sub", "R"), ("xor", "R"), ("sub", "L")):
@@ -627,7 +628,7 @@ def tier_b_kreuse(thorough):
                         emit_use(s, R, u3, RR, RR)
                         s.ins(rt, RR)
                     P.append(Prog("B:kreuse.%s:%s,mulR,%s:%d" % (ty, name(u1), name(u3), c),
-                                  "B:kreuse.%s:%s" % (ty, name(u1)), T + T, T, nloc, body3))
+                                  "B:kreuse.%s" % ty, T + T, T, nloc, body3))
     return P
 
 
